@@ -170,7 +170,100 @@ def windowed_after_merge(rep: Report, rng: Rng):
                             rep.violation(*v)
 
 
+from torcheval.metrics import Metric as _Metric
+
+
+class Bag(_Metric):
+    """user-defined metric that uses every state kind the base class allows (tensor, list of tensors, dict of tensors, int, float)
+    — the library ships none with a dict state, but `Metric._add_state` / reset() / to() / state_dict() support it.  Module-level so
+    that the class itself is picklable."""
+    def __init__(self, device=None):
+        super().__init__(device=device)
+        self._add_state("total", torch.tensor(0.0))
+        self._add_state("items", [])
+        self._add_state("by_key", {})
+        self._add_state("calls", 0)
+        self._add_state("mass", 0.0)
+
+    @torch.inference_mode()
+    def update(self, key, x):
+        self.total += x.sum()
+        self.items.append(x.detach())
+        self.by_key[key] = self.by_key.get(key, torch.tensor(0.0)) + x.sum()
+        self.calls += 1
+        self.mass += float(x.abs().sum())
+        return self
+
+    @torch.inference_mode()
+    def compute(self):
+        keys = sorted(self.by_key)
+        return (self.total, torch.cat(self.items) if self.items else torch.empty(0), torch.stack([self.by_key[k] for k in keys]) if keys else torch.empty(0),
+                torch.tensor(self.calls), torch.tensor(self.mass))
+
+    @torch.inference_mode()
+    def merge_state(self, metrics):
+        for m in metrics:
+            self.total += m.total
+            self.items.extend(t.clone() for t in m.items)
+            for k, v in m.by_key.items():
+                self.by_key[k] = self.by_key.get(k, torch.tensor(0.0)) + v
+            self.calls += m.calls
+            self.mass += m.mass
+        return self
+
+
+def _user_metrics():
+    return [Bag]
+
+
+def user_defined(rep: Report, rng: Rng):
+    """every copy method at every point of short histories (update / merge / reset / to(device)) of user-defined metrics holding
+    all allowed state kinds: the copy computes what the original computes, now and after a shared continuation."""
+    for cls in _user_metrics():
+        for rep_i in range(12 if rep.tier == "quick" else 60):
+            ops = [rng.choice(["u", "u", "u", "r", "m", "to"]) for _ in range(rng.randint(1, 6))]
+            batches = [(rng.choice(["a", "b", "c"]), torch.tensor([float(rng.choice([0.25, 0.5, 1.0, 2.0])) for _ in range(rng.randint(1, 3))])) for _ in range(12)]
+            how = HOW[rep_i % 4]
+
+            def play(m, ops_, start=0):
+                k = start
+                for op in ops_:
+                    if op == "u":
+                        m.update(*batches[k % len(batches)]); k += 1
+                    elif op == "r":
+                        m.reset()
+                    elif op == "to":
+                        m.to("cpu")
+                    else:
+                        src = cls(); src.update(*batches[(k + 3) % len(batches)]); m.merge_state([src]); k += 1
+                return k
+            orig = cls()
+            k = play(orig, ops)
+            rep.case(nontrivial_key=("user-defined", cls.__name__, how, tuple(ops), rep_i)); rep.count("stream:user-defined"); rep.count(f"how:{how}")
+            replay_d = {"kind": "user-defined", "class": cls.__name__, "ops": ops, "how": how, "batches": [[b[0], b[1].tolist()] for b in batches]}
+            try:
+                if how == "load_state_dict":
+                    cp = cls(); cp.load_state_dict(orig.state_dict())
+                elif how == "pickle":
+                    cp = pickle.loads(pickle.dumps(orig))
+                elif how == "clone_metric":
+                    cp = clone_metric(orig)
+                else:
+                    cp = copy.deepcopy(orig)
+            except Exception as e:  # noqa: BLE001
+                rep.violation(f"C09|user-defined:{cls.__name__}|{how}|copy-raises",
+                              f"user-defined metric with tensor/list/dict/int/float states after {ops}: {how} raised {e!r}"[:400], replay_d)
+                continue
+            cont = ["u", "m", "u"]
+            play(orig, cont, k); play(cp, cont, k)
+            a, b = orig.compute(), cp.compute()
+            if not all(x.shape == y.shape and torch.equal(x, y) for x, y in zip(a, b)):
+                rep.violation(f"C09|user-defined:{cls.__name__}|{how}|differs-after-restore",
+                              f"user-defined metric after {ops} copied by {how}: original computes {[t.tolist() for t in a]}, copy {[t.tolist() for t in b]}"[:400], replay_d)
+
+
 def run(rep: Report):
+    user_defined(rep, Rng(rep.seed * 1000003 + 78))
     windowed_after_merge(rep, Rng(rep.seed * 1000003 + 77))
     sweep(rep, Rng(rep.seed * 1000003 + 9), 3 if rep.tier == "quick" else 12, time.time() + budget(rep.tier, 70, 800), rep.tier == "thorough")
 
@@ -200,6 +293,8 @@ def replay(payload) -> bool:
     """True iff the property holds on the recorded checkpoint: history, copy method and continuation are rebuilt and judged
     by `examine` (the sweep's oracle: the original object against its copy, step by step)."""
     rp = payload.get("replay") or {}
+    if rp.get("kind") == "user-defined":
+        raise ValueError("nothing to replay here: user-defined cases are re-run by the check's user-defined stream (deterministic per seed)")
     if payload.get("kind", "failing-input") != "failing-input" or not {"class", "cfg", "how", "history"} <= set(rp):
         raise ValueError(f"nothing to replay: payload kind {payload.get('kind')!r} carries no checkpoint (class, cfg, how, history)")
     from ..registry import BY_NAME
